@@ -22,7 +22,9 @@ UT(op, a) == [n |-> op, a |-> a]
 Rg(lo, lc, hi, hc) == [n |-> "range", lo |-> lo, lc |-> lc, hi |-> hi, hc |-> hc]
 EL(items) == [n |-> "elist", items |-> items]
 NotL(items) == [n |-> "notlist", items |-> items]
-One == I("1", 1)  Two == I("2", 2)  Three == I("3", 3)
+One == I("1", 1)  Two == I("2", 2)  Three == I("3", 3)  Four == I("4", 4)  Five == I("5", 5)
+Scaled20 == [k |-> "num", m |-> 20, e |-> 0 - 1]      \* 2.0  : equal to 2, written with another scale
+Scaled300 == [k |-> "num", m |-> 300, e |-> 0 - 2]    \* 3.00
 
 RECURSIVE SepT(_, _)
 SepT(items, i) == IF i > Len(items) THEN <<>> ELSE (IF i > 1 THEN <<",">> ELSE <<>>) \o R(items[i], "min") \o SepT(items, i + 1)
@@ -52,14 +54,17 @@ NumEntries == {AnyE, One, UT("utlt", Two), UT("utle", Two), UT("utgt", Two), UT(
                NotL(<<UT("utlt", Two), UT("utge", Three)>>), EL(<<UT("utle", One), UT("utge", Three)>>),
                \* intervals whose end points coincide (closed: exactly that value; otherwise empty) or descend (empty)
                Rg(Two, TRUE, Two, TRUE), Rg(Two, TRUE, Two, FALSE), Rg(Two, FALSE, Two, TRUE), Rg(Two, FALSE, Two, FALSE), Rg(Three, TRUE, One, TRUE),
-               EL(<<One, Rg(Two, TRUE, Two, TRUE)>>), NotL(<<Rg(Two, TRUE, Two, TRUE)>>), NotL(<<Rg(Three, TRUE, One, TRUE)>>)}
+               EL(<<One, Rg(Two, TRUE, Two, TRUE)>>), NotL(<<Rg(Two, TRUE, Two, TRUE)>>), NotL(<<Rg(Three, TRUE, One, TRUE)>>),
+               \* longer lists of plain literals (an input equal to a member matches whatever its scale)
+               EL(<<One, Two, Three, Four>>), EL(<<Five, Four, Three, One>>), EL(<<One, Two, Three, Four, Five>>), NotL(<<One, Two, Three, Four>>),
+               EL(<<One, Two, Four, Five, UT("utgt", Five)>>)}
 StrEntries == {AnyE, S("a", <<97>>), EL(<<S("a", <<97>>), S("b", <<98>>)>>), NotL(<<S("a", <<97>>)>>), UT("utgt", S("a", <<97>>)), Rg(S("a", <<97>>), TRUE, S("b", <<98>>), FALSE)}
 Match == {Table("MATCH", "U", <<In("x", "number", NoAllowed)>>, <<Out("", <<>>, None)>>, <<Rule(<<e>>, <<O10>>)>>,
-                <<<<VN(1)>>, <<VN(2)>>, <<VN(3)>>, <<[k |-> "num", m |-> 25, e |-> 0 - 1]>>, <<VNull>>>>) : e \in NumEntries}
+                <<<<VN(1)>>, <<VN(2)>>, <<VN(3)>>, <<[k |-> "num", m |-> 25, e |-> 0 - 1]>>, <<VNull>>, <<Scaled20>>, <<Scaled300>>>>) : e \in NumEntries}
          \cup {Table("MATCH", "U", <<In("x", "string", NoAllowed)>>, <<Out("", <<>>, None)>>, <<Rule(<<e>>, <<O10>>)>>,
                 <<<<VS(<<97>>)>>, <<VS(<<98>>)>>, <<VS(<<99>>)>>, <<VNull>>>>) : e \in StrEntries}
-         \cup {Table("MATCH", "F", <<In("x", "number", a)>>, <<Out("", <<>>, None)>>, <<Rule(<<e>>, <<O10>>)>>, NumInputs)
-                : e \in {AnyE, UT("utge", Two)}, a \in {EL(<<One, Two>>), Rg(Two, TRUE, Three, TRUE)}}
+         \cup {Table("MATCH", "F", <<In("x", "number", a)>>, <<Out("", <<>>, None)>>, <<Rule(<<e>>, <<O10>>)>>, NumInputs \o <<<<Scaled20>>, <<Scaled300>>>>)
+                : e \in {AnyE, UT("utge", Two)}, a \in {EL(<<One, Two>>), Rg(Two, TRUE, Three, TRUE), EL(<<One, Two, Three, Four>>)}}
 
 \* POLICY
 E3 == {AnyE, One, UT("utge", Two)}
